@@ -244,6 +244,7 @@ func runC12(tier string, seed uint64) {
 	}
 	// (2) through PUT on every backend with a fragmented transport
 	for _, kind := range allKinds {
+		c12ChunkedParts(kind, rng)
 		s := newSess("c12", kind, SessOpts{})
 		b := singleBucketName
 		if !isSingle(kind) {
@@ -289,6 +290,21 @@ func runC12(tier string, seed uint64) {
 		good := encodeChunks(splitChunks([]byte("trailing garbage follows"), []int{9}))
 		s.ChunkedPutStream(b, "obj", append(append([]byte{}, good...), []byte("garbage that is not a chunk")...), []byte("trailing garbage follows"), nil, false, 24)
 		s.Get(b, "obj", "")
+		// the same malformations through the whole upload path (decoder, digest, length check): cut points
+		// of a stream, and things after its closing chunk that are not chunk headers
+		{
+			pl := []byte("the complete payload, delivered in full")
+			st := encodeChunks(splitChunks(pl, []int{13}))
+			for cut := len(st) - 100; cut < len(st); cut += 3 {
+				if cut > 0 {
+					s.ChunkedPutStream(b, "obj", st[:cut], pl, nil, cut%2 == 0, len(pl))
+				}
+			}
+			for _, tail := range []string{"deadbeef", "0", "00", "1f", "\r\n", "0;", "zz;", "deadbeef;" + chunkSig[:20]} {
+				s.ChunkedPutStream(b, "obj", append(append([]byte{}, st...), tail...), pl, nil, false, len(pl))
+			}
+			s.Get(b, "obj", "")
+		}
 		// transport failure at every point of the stream, the closing chunk and its signature line included
 		pl := []byte("payload of a chunked upload that breaks off")
 		st := encodeChunks(splitChunks(pl, []int{16}))
@@ -305,4 +321,48 @@ func runC12(tier string, seed uint64) {
 	}
 	sample("decoder driven directly: payloads of 0,1,2,15..17,100,600,4095..4097,32767..32769,65539 bytes; chunk-size patterns {1},{2,3},{16},{100,1,7},{4096},{70000},{65536,1},{10^6}; transport read schedules: uncapped, 1 byte at a time, halves, seeded random, 1000-byte reads, mixed; EOF with and without data; consumers ReadAll(exact/short/long size) and copy loops with buffers 1,2,7,512,32768")
 	sample("PUT with STREAMING-AWS4-HMAC-SHA256-PAYLOAD on all six backends with the same fragmentations, GET after each, declared decoded length off by one and negative; data and garbage after a zero-length chunk; transport failures at every point of the stream incl. the closing chunk")
+}
+
+// c12ChunkedParts: the framing on the parts of a multipart upload. A part sent chunked is stored as
+// its payload (the completed object is the concatenation of the payloads); a part whose decoded
+// length is not the declared one is refused and not held. Verdicts computed here.
+func c12ChunkedParts(kind string, rng *Rng) {
+	s := newSess("c12", kind, SessOpts{})
+	emit("c12", "NOMODEL")
+	b := singleBucketName
+	if !isSingle(kind) {
+		s.MkBucket(b)
+	}
+	verdict := func(ok bool, what string) {
+		if ok {
+			emit("c12", "GOOD", hs(what))
+		} else {
+			emit("c12", "BAD", hs(what))
+		}
+	}
+	id := s.Initiate(b, "mpc", nil)
+	p1, p2 := rng.Bytes(7000), rng.Bytes(333)
+	sendPart := func(pn int, payload []byte, sizes []int, sched []int, declared int) Resp {
+		stream := encodeChunks(splitChunks(payload, sizes))
+		fr := &fragReader{data: append([]byte{}, stream...), sched: append([]int{}, sched...), eofWith: pn%2 == 0}
+		return do(s.h, Req{Method: "PUT", Path: "/" + b + "/mpc?uploadId=" + queryEscape(id) + "&partNumber=" + strconv.Itoa(pn), Reader: fr, Header: [][2]string{
+			{"Content-Length", strconv.Itoa(len(stream))},
+			{"X-Amz-Content-Sha256", "STREAMING-AWS4-HMAC-SHA256-PAYLOAD"},
+			{"X-Amz-Decoded-Content-Length", strconv.Itoa(declared)}}})
+	}
+	r1 := sendPart(1, p1, []int{1024}, []int{1}, len(p1))
+	r2 := sendPart(2, p2, []int{100, 1, 7}, nil, len(p2))
+	r3 := sendPart(3, p2, []int{64}, nil, len(p2)+1) // wrong declared decoded length
+	verdict(r1.Status == 200 && r2.Status == 200, fmt.Sprintf("%s: chunked part uploads are accepted (%d, %d)", kind, r1.Status, r2.Status))
+	verdict(r3.Status >= 400, fmt.Sprintf("%s: a chunked part whose decoded length differs from the declared one is refused (%d)", kind, r3.Status))
+	lp := s.ListParts(b, "mpc", id, -1, -1)
+	verdict(fmt.Sprint(lp.Nums) == "[1 2]", fmt.Sprintf("%s: the upload holds exactly the two accepted parts: %v", kind, lp.Nums))
+	if r1.Status == 200 && r2.Status == 200 {
+		rc := s.Complete(b, "mpc", id, []CPart{{1, r1.Header.Get("ETag")}, {2, r2.Header.Get("ETag")}})
+		g := do(s.h, Req{Method: "GET", Path: "/" + b + "/mpc"})
+		want := append(append([]byte{}, p1...), p2...)
+		verdict(rc.Status == 200 && g.Status == 200 && bytes.Equal(g.Body, want), fmt.Sprintf("%s: the completed object is the concatenation of the part payloads (%d bytes; got %d, complete answered %d)", kind, len(want), len(g.Body), rc.Status))
+	}
+	nontrivial(kind + "|chunked-parts")
+	s.end()
 }
